@@ -43,9 +43,9 @@ ASSUMPTIONS = [
     "timezone-aware datetime.time values are excluded by construction (open known finding F8) and reproduced separately",
 ]
 
-FILE_KINDS = ["tmp_ab", "tmp_a", "tmp_wb0", "bytesio", "stringio", "textio", "codecs_open", "codecs_writer", "spooled_b", "spooled_t", "textio_wt", "tmp_line"]
+FILE_KINDS = ["tmp_ab", "tmp_a", "tmp_wb0", "bytesio", "stringio", "textio", "codecs_open", "codecs_writer", "spooled_b", "spooled_t", "textio_wt", "tmp_line", "tmp_gb18030"]
 BINARY_KINDS = ("tmp_ab", "tmp_wb0", "bytesio", "spooled_b")
-PATH_KINDS = ("tmp_ab", "tmp_a", "tmp_wb0", "codecs_open", "codecs_writer", "textio_wt", "tmp_line")
+PATH_KINDS = ("tmp_ab", "tmp_a", "tmp_wb0", "codecs_open", "codecs_writer", "textio_wt", "tmp_line", "tmp_gb18030")
 
 
 class Proxy(object):
@@ -171,6 +171,10 @@ def _open(kind, tmpdir):
         # write-through text layer over an ordinary buffered binary file: only an explicit flush reaches the disk
         path = os.path.join(tmpdir, "log")
         f = io.TextIOWrapper(open(path, "wb"), encoding="utf-8", newline="\n", write_through=True)
+    elif kind == "tmp_gb18030":
+        # a text file in another encoding (one that can hold every code point): what matters is the text handed over
+        path = os.path.join(tmpdir, "log")
+        f = open(path, "w", encoding="gb18030", newline="\n")
     elif kind == "tmp_line":
         path = os.path.join(tmpdir, "log")
         f = open(path, "w", buffering=1, encoding="utf-8", newline="\n")
@@ -184,6 +188,9 @@ def _open(kind, tmpdir):
 
 
 def _content(kind, f, path):
+    if kind == "tmp_gb18030":
+        with open(path, "rb") as r:
+            return r.read().decode("gb18030").encode("utf-8")
     if path is not None:
         with open(path, "rb") as r:
             return r.read()
@@ -329,6 +336,8 @@ def _check(case):
                     # a reader never sees a partial or missing line between logging calls
                     with open(path, "rb") as reader:
                         on_disk = reader.read()
+                    if kind == "tmp_gb18030":
+                        on_disk = on_disk.decode("gb18030").encode("utf-8")
                     require(on_disk == expected_total, "not-on-disk", lambda: "after the call returned the file holds %r, expected %r" % (on_disk[-120:], expected_total[-120:]))
                 if rotate_after is not None and rotated is None and msgs.index(spec) >= rotate_after if spec in msgs else False:
                     # log rotation: the file is renamed and the wrapper re-opened on a fresh one
@@ -351,6 +360,8 @@ def _check(case):
             if rotated is not None:
                 with open(path + ".1", "rb") as old_file:
                     old_content = old_file.read()
+                if kind == "tmp_gb18030":
+                    old_content = old_content.decode("gb18030").encode("utf-8")
                 require(old_content == rotated, "file-content", lambda: "rotated file holds %r, writes before the rotation were %r" % (old_content[:200], rotated[:200]))
         finally:
             try:
